@@ -44,7 +44,8 @@ P = {
          "place - idle and broken-down AGVs are empty and stand at a place, a broken-down AGV has no claim, the WORKING phase is never "
          "entered (C03_agv_phase_*, unconditional); a busy machine holds exactly one job, an "
          "idle one none (C03_machine_holds_one_partial, corollary of the C01 invariant with its monitored side condition; "
-         "C03_machine_holds_one_flex: unconditional for instances with unordered machine post-buffers). " + TIE),
+         "C03_machine_holds_one_flex: unconditional for instances with unordered machine post-buffers; "
+         "C03_agv_holds_only_its_claim_flex: agv_hold_b in every state of every run of such instances, SMP/Hold.v). " + TIE),
  "C04": ("Env", "Theorems (Props/C04.v; SMP/Decline, Atomic): env model - a done episode refuses steps (C04_done_raises), terminated and "
          "truncated are never both set (C04_exclusive), terminated iff the middleware result has no offers and every job lies in an "
          "output buffer with all its operations done (C04_term_flag; all_in_output as repaired by fix 7fd110d), the reported makespan is the clock set to the latest DONE end (C04_makespan_is_clock); a job in an "
